@@ -56,13 +56,13 @@ def r1_dispatch(ctx, repo):
             ok = True
         else:
             detail = "a task is %s, expected delayed(self.job.evaluate)(<the design>)" % text(e)
-    ctx.check(ok, "R1", C, where(mod, call), "one Job.evaluate task per element of the batch, shared memory" if ok else detail)
+    ctx.check3(True if ok else (None if detail.endswith("not recognised") else False), "R1", C, where(mod, call), "one Job.evaluate task per element of the batch, shared memory", detail, detail)
     # the dispatcher chooses the parallel path only by the process-count option
     fn2 = cls.methods.get("evaluate")
     if fn2 is not None:
         t = text(fn2)
-        ctx.check("evaluate_parallel(individuals)" in t.replace(" ", "").replace("self.", "") and "evaluate_serial(individuals)" in t.replace(" ", "").replace("self.", ""),
-                  "R1", "Evaluator.evaluate", where(mod, fn2), "both paths receive the same batch", key="same-batch")
+        okb = "evaluate_parallel(individuals)" in t.replace(" ", "").replace("self.", "") and "evaluate_serial(individuals)" in t.replace(" ", "").replace("self.", "")
+        ctx.check3(True if okb else None, "R1", "Evaluator.evaluate", where(mod, fn2), "both paths receive the same batch", unknown_detail="dispatcher shape not recognised", key="same-batch")
 
 
 def closure(repo):
